@@ -82,16 +82,24 @@ func c13R1(h H) {
 		r.Unresolve("R1", "type header not found")
 	}
 	if es := h.fn("R1", fcPkg, "encodeSize"); es != nil {
-		thr, bit := false, false
+		// the 4-byte form (high bit set) is produced exactly for sizes >= 128, the 1-byte form exactly for sizes <= 127
+		thr, bit := true, false
+		isSize := func(v ssa.Value) bool { _, ok := v.(*ssa.Parameter); return ok }
 		allInstrs(es, func(in ssa.Instruction) {
-			if b, ok := in.(*ssa.BinOp); ok {
-				if _, kind, c, ok := intCmp(b); ok && kind == "gt" && c == 127 {
-					thr = true
+			if b, ok := in.(*ssa.BinOp); ok && b.Op == token.OR {
+				if c, ok := constInt(b.Y); ok && c == 1<<31 {
+					bit = true
+					thr = thr && guardsImplyAtLeast(guardAtoms(es, nil, in), isSize, 128)
 				}
-				if b.Op == token.OR {
-					if c, ok := constInt(b.Y); ok && c == 1<<31 {
-						bit = true
-					}
+			}
+			if rt, ok := in.(*ssa.Return); ok && len(rt.Results) == 1 {
+				switch n, _ := constInt(rt.Results[0]); n {
+				case 4:
+					thr = thr && guardsImplyAtLeast(guardAtoms(es, nil, in), isSize, 128)
+				case 1:
+					thr = thr && guardsImplyAtMost(guardAtoms(es, nil, in), isSize, 127)
+				default:
+					thr = false
 				}
 			}
 		})
